@@ -693,3 +693,93 @@ func (sb *subT) close() {
 		_ = sb.rt.conn.Close()
 	}
 }
+
+// ---------------------------------------------------------------------------
+// F3: forwarded opaquely
+
+type pubRec struct {
+	typ     uint8
+	ts      uint32
+	payload []byte
+}
+
+func recKey(typ uint8, ts uint32, payload []byte) string {
+	return string([]byte{typ, byte(ts >> 24), byte(ts >> 16), byte(ts >> 8), byte(ts)}) + string(payload)
+}
+
+// lal's made-up audio (remux.DummyAudioFilter): AAC-LC 48 kHz stereo sequence header, one silent frame
+var dummyAsh = []byte{0xaf, 0x00, 0x11, 0x90}
+var dummyFrame = []byte{0xaf, 0x01, 0x21, 0x10, 0x04, 0x60, 0x8c, 0x1c}
+
+// cachedHeaderKind: the payloads lal caches as "sequence header" and replays to a joining consumer before
+// anything else, whatever their publication order (FLV spec E.4.3.1 / E.4.2.1, enhanced-RTMP SequenceStart).
+func cachedHeaderKind(typ uint8, p []byte) bool {
+	if len(p) < 2 {
+		return false
+	}
+	if typ == 8 {
+		return p[0]>>4 == 10 && p[1] == 0
+	}
+	if p[0]&0x80 != 0 {
+		return len(p) >= 5 && p[0]&0x0f == 0 && string(p[1:5]) == "hvc1"
+	}
+	return (p[0] == 0x17 || p[0] == 0x1c) && p[1] == 0
+}
+
+// forwarded judges F3 on what an RTMP / FLV / WS-FLV consumer has decoded so far (a prefix of its stream is
+// as good as the whole: the rule is about each record and its order, not about completeness).
+func (sb *subT) forwarded(pub []pubRec, dummy bool) *pbt.Violation {
+	if sb.rc == nil || sb.rc.JoinErr() != nil {
+		return nil
+	}
+	index := map[string][]int{}
+	for i, p := range pub {
+		k := recKey(p.typ, p.ts, p.payload)
+		index[k] = append(index[k], i)
+	}
+	recs := sb.rc.Recs()
+	cur := -1
+	prologue := true
+	judged := 0
+	for n, r := range recs {
+		if r.Type != 8 && r.Type != 9 {
+			continue
+		}
+		if dummy && r.Type == 8 && (bytes.Equal(r.Payload, dummyAsh) || bytes.Equal(r.Payload, dummyFrame)) {
+			continue
+		}
+		judged++
+		idxs := index[recKey(r.Type, r.Ts, r.Payload)]
+		if len(idxs) == 0 {
+			what := "no published message has this payload"
+			for i, p := range pub {
+				switch {
+				case p.typ == r.Type && bytes.Equal(p.payload, r.Payload):
+					what = fmt.Sprintf("published message %d has this payload but timestamp %d", i, p.ts)
+				case p.typ == r.Type && p.ts == r.Ts && len(r.Payload) < len(p.payload) && bytes.HasPrefix(p.payload, r.Payload):
+					what = fmt.Sprintf("it is the first %d of the %d bytes of published message %d", len(r.Payload), len(p.payload), i)
+				case p.typ == r.Type && p.ts == r.Ts && len(p.payload) == len(r.Payload) && what[0] == 'n':
+					what = fmt.Sprintf("published message %d has this type, timestamp and length but other bytes", i)
+				}
+			}
+			return pbt.V("forwarded/altered-or-reordered/"+sb.kind, "%s consumer: record %d %s is not a published audio / video message: %s", sb.kind, n, r, what)
+		}
+		if prologue && cachedHeaderKind(r.Type, r.Payload) {
+			continue
+		}
+		prologue = false
+		pick := -1
+		for _, x := range idxs {
+			if x > cur {
+				pick = x
+				break
+			}
+		}
+		if pick < 0 {
+			return pbt.V("forwarded/altered-or-reordered/"+sb.kind, "%s consumer: record %d %s is published message %v, but it arrives after published message %d: reordered or delivered twice", sb.kind, n, r, idxs, cur)
+		}
+		cur = pick
+	}
+	pbt.Count("forwarded-records-judged", judged)
+	return nil
+}
